@@ -34,7 +34,7 @@ def classify(e):
 def main():
     harness = importlib.import_module("checks.harness." + sys.argv[1])
     fn = getattr(harness, sys.argv[2])
-    per_case = float(os.environ.get("VERIF_CASE_TIMEOUT", getattr(harness, "CASE_TIMEOUT", 20)))
+    per_case = float(os.environ.get("VERIF_CASE_TIMEOUT", getattr(harness, "CASE_TIMEOUT", 60)))
     signal.signal(signal.SIGALRM, _alarm)
     out = sys.stdout
     for line in sys.stdin:
